@@ -59,10 +59,20 @@ func c12Envelope(cs *drv.Case, name string, mtype int32, seq int32, sched int) b
 	br := thrift.NewBufferReader(rd)
 	gn, gt, gs, err = br.ReadMessageBegin()
 	consumed := br.Readn()
-	br.Recycle()
-	rd.Release(nil)
 	if err != nil || gn != name || gt != wantType || gs != seq || int(consumed) != len(want) {
+		br.Recycle()
 		return fail("envelope-stream-reader", "got (%.40q, %d, %d, consumed %d, %v)", gn, gt, gs, consumed, err)
+	}
+	// the returned name is a value: it must survive Release, further reads and reuse of the pool buffers
+	rd.Release(nil)
+	rd.Next(3)
+	rd.Release(nil)
+	br.Recycle()
+	ct := &coTenant{r: cs.R}
+	ct.run(cs, nil, nil, nil, len(stream)+4096, "c12")
+	ct.done()
+	if gn != name {
+		return fail("envelope-name-changed", "the method name returned by the stream reader changed after Release / buffer reuse")
 	}
 	cs.C.Obs("envelopes round-tripped", 1)
 	return true
@@ -200,6 +210,29 @@ func monC12(c *drv.Ctx) {
 		mt := []int32{thrift.CALL, thrift.REPLY, thrift.ONEWAY, thrift.EXCEPTION, 0, 5, 0x10003}[r.Intn(7)]
 		payload := &base.BaseResp{StatusMessage: genFieldStr(r), StatusCode: gen.I32(r), Extra: genExtra(r)}
 		cs.Desc = M{"method_len": len(method), "seq": seq, "msg_type": mt}
+		if mt&0xffff == thrift.EXCEPTION && method != "" && r.Intn(2) == 0 {
+			// an EXCEPTION message built by the independent encoder: fields permuted, unknown and
+			// differently-typed fields (incl. ids 1 and 2 with other types) interleaved
+			tid := gen.I32(r)
+			text := string(gen.Bytes(r, r.Intn(30)))
+			known := []kfield{{1, ref.STRING, ref.EncString(nil, text)}, {2, ref.I32, ref.EncI32(nil, tid)}}
+			body, shape := buildStruct(r, known, r.Intn(5), true)
+			b := append(ref.EncMessageBegin(nil, method, mt, seq), body...)
+			victim := &base.BaseResp{StatusMessage: "untouched", StatusCode: 99}
+			gm, gs, err := thrift.UnmarshalFastMsg(place(b, 0), victim)
+			var ae *thrift.ApplicationException
+			if !errors.As(err, &ae) {
+				cs.Fail("exception-not-surfaced", M{"via": "hostile-fields"}, M{"err": errString(err), "field_order": shape, "wire_hex": hexOf(b)})
+				return
+			}
+			if ae.TypeID() != tid || ae.Msg() != text || gm != method || gs != seq {
+				cs.Fail("exception-content", M{"via": "hostile-fields"}, M{"got_type": ae.TypeID(), "want_type": tid, "got_msg": ae.Msg(), "want_msg": text, "field_order": shape, "wire_hex": hexOf(b)})
+				return
+			}
+			cs.C.Obs("exception messages", 1)
+			cs.Count(true, "exc2", shape, b)
+			return
+		}
 		if mt&0xffff == thrift.EXCEPTION {
 			tid := gen.I32(r)
 			text := string(gen.Bytes(r, r.Intn(30)))
